@@ -51,7 +51,10 @@ def modelStep (s : MState) (line : String) : MState × String :=
     | some ev =>
       let (st', out) := Model.Monitor.step s.cfg s.st ev
       ({ s with st := st' }, joinOut (out.map fmtOut))
-    | none => (s, if ws == ["end"] then "end" else "bad-op")
+    | none =>
+      match ws with
+      | ["trickle", _] => (s, "none")   -- bytes that do not complete a frame: no message was received, nothing happens
+      | _ => (s, if ws == ["end"] then "end" else "bad-op")
 
 structure JState where
   period : Int := 0
@@ -79,6 +82,11 @@ def judgeLine (s : JState) (line : String) : JState × String :=
     | some (cfg, t0) => ({ period := cfg.period, maxRetries := cfg.maxRetries, last := t0 }, "ok")
     | none => (s, if words inp == ["end"] then "end" else "bad-op")
   | [inp, obs] =>
+    match words inp, parseObs obs with
+    | ["trickle", _], some outs =>
+      -- a message is a complete frame: bytes of an unfinished one neither trigger anything nor count as activity
+      (s, if outs.isEmpty then "ok" else "violates bytes of an incomplete frame triggered a ping or a close")
+    | _, _ =>
     match parseEv (words inp), parseObs obs with
     | some ev, some outs =>
       let pingsOut := outs.filterMap (fun o => match o with | .ping g => some g | _ => none)
